@@ -9,7 +9,8 @@
        ek em ea eb epos             edit kind 0 none 1 junk(a = component) 2 truncate(a = whole components kept,
                                     b = a partial one follows) 3 extend 4 drop 5 grow 6 duplicate 7 splice;
                                     em = message 1..3; epos = byte position (informational)
-       fk finit fclaim fsigk fsigm  forging endpoint: present?, is initiator?, claimed key 1..3 / 4 junk / 5 empty,
+       fk finit fclaim fsigk fsigm  forging endpoint: present?, is initiator?, claimed key 1..3 / 4 junk / 5 empty / 10*v + k: key k in the
+                                    non-canonical serialization v (1 unknown field appended, 2 fields reordered, 3 non-minimal varint),
                                     signer 1..3 / 4 junk / 5 empty, signed message 0 good 1 other static 2 no prefix
        pk pinit pstage pidx         a panic inside one endpoint's runHandshake: present?, in the initiator?, stage 0 = the
                                     pidx-th Write on the insecure connection, 1 = the pidx-th Read, 2 = the early-data
@@ -54,6 +55,8 @@ Definition idk_eqb (a b : idk) : bool :=
 Definition forge_is_honest (own : idk) (f : forge) : bool :=
   match f_claim f, f_sig f with
   | ClKey k, FsBy k' SmGood => idk_eqb k own && idk_eqb k' own
+  | ClAlias k _, FsBy k' SmGood => idk_eqb k own && idk_eqb k' own
+      (* its own key in a valid, non-canonical serialization: the same key, honestly proved *)
   | _, _ => false
   end.
 
@@ -202,9 +205,17 @@ Definition edit_of (ek em ea eb : Z) : option edit :=
            else None
        end.
 
+Definition alias_of_z (z : Z) : option alias :=
+  if z =? 1 then Some AUnknownField else if z =? 2 then Some AReordered
+  else if z =? 3 then Some ANonMinimal else None.
 Definition claim_of (z : Z) : option claim :=
   if z =? 4 then Some ClJunk else if z =? 5 then Some ClEmpty
-  else match idk_of_z z with Some k => Some (ClKey k) | None => None end.
+  else if 10 <=? z
+       then match idk_of_z (z mod 10), alias_of_z (z / 10) with
+            | Some k, Some a => Some (ClAlias k a)
+            | _, _ => None
+            end
+       else match idk_of_z z with Some k => Some (ClKey k) | None => None end.
 Definition smsg_of (z : Z) : option smsg :=
   if z =? 0 then Some SmGood else if z =? 1 then Some SmOtherStatic else if z =? 2 then Some SmNoPrefix else None.
 Definition fsig_of (k m : Z) : option fsig :=
